@@ -63,29 +63,32 @@ def ident(rng: random.Random, lo=1, hi=10, upper=False) -> str:
             return s
 
 
-def yaml_def(d: dict, comments: Optional[random.Random] = None) -> str:
+def yaml_def(d: dict, comments: Optional[random.Random] = None, fields_first: bool = False, ind: int = 2) -> str:
+    """one definition; `fields_first` writes the `fields` key before the `id` key, `ind` is the indentation step
+    of the mapping (the canonical text always uses 2)"""
     def c():
         if comments is None:
             return ""
         return comments.choice(["", "", "   # a comment", "\n", "\n      # full line comment\n"])
-    t = f"  {d['name']}:\n"
-    if d["kind"] != "struct":
-        t += f"    id: {d['id']}" + (c().split("\n")[0]) + "\n"
+    i1, i2 = " " * (2 + ind), " " * (2 + 2 * ind)
+    head = f"  {d['name']}:\n"
+    idl = "" if d["kind"] == "struct" else f"{i1}id: {d['id']}" + (c().split("\n")[0]) + "\n"
     if d["kind"] == "signal":
-        t += "    fields: null\n"
+        fl = f"{i1}fields: null" + (c().split("\n")[0]) + "\n"
     elif d.get("reuse"):
-        t += f"    fields: {d['reuse']}\n"
+        fl = f"{i1}fields: {d['reuse']}\n"
     else:
-        t += "    fields:\n"
+        fl = f"{i1}fields:\n"
         for fn, ty in d["fields"]:
-            t += f"      {fn}: {ty}" + (c().split("\n")[0]) + "\n"
+            fl += f"{i2}{fn}: {ty}" + (c().split("\n")[0]) + "\n"
             if comments is not None and comments.random() < 0.3:
-                t += "\n"
-    return t
+                fl += "\n"
+    sep = ("\n" + i1 + "# between the sections\n\n") if comments is not None and comments.random() < 0.5 else ""
+    return head + ((fl + sep + idl) if fields_first else (idl + sep + fl))
 
 
 def yaml_file(imports=(), consts=(), aliases=(), structs=(), msgs=(), comments: Optional[random.Random] = None,
-              order=None) -> str:
+              order=None, fields_first: bool = False, ind: int = 2) -> str:
     parts = {}
     if imports:
         parts["imports"] = "imports:\n" + "".join(f"  - {i}\n" for i in imports)
@@ -94,12 +97,24 @@ def yaml_file(imports=(), consts=(), aliases=(), structs=(), msgs=(), comments: 
     if aliases:
         parts["aliases"] = "aliases:\n" + "".join(f"  {n}: {t}\n" for n, t in aliases)
     if structs:
-        parts["struct_defs"] = "struct_defs:\n" + "\n".join(yaml_def(s, comments) for s in structs)
+        parts["struct_defs"] = "struct_defs:\n" + "\n".join(yaml_def(s, comments, fields_first, ind) for s in structs)
     if msgs:
-        parts["message_defs"] = "message_defs:\n" + "\n".join(yaml_def(m, comments) for m in msgs)
+        parts["message_defs"] = "message_defs:\n" + "\n".join(yaml_def(m, comments, fields_first, ind) for m in msgs)
     order = order or ["imports", "constants", "aliases", "struct_defs", "message_defs"]
     head = "# header comment\n\n" if comments is not None else ""
     return head + ("\n\n" if comments is not None else "\n").join(parts[s] for s in order if s in parts) + "\n"
+
+
+def canonical_text(d: dict) -> Optional[str]:
+    """the canonical definition text, written from the property: name, id, then the ordered fields with their type
+    texts (or the name of the reuse target) - always in that order, whatever the order of the keys in the source.
+    (None for a struct written `fields: OTHER`, whose text the parser builds character by character: model only.)"""
+    if d["kind"] == "signal":
+        return f"{d['name']}:\n  id: {d['id']}\n  fields: null"
+    body = f"    fields: {d['reuse']}" if d.get("reuse") else "\n".join(f"    {a}: {b}" for a, b in d["fields"])
+    if d["kind"] == "message":
+        return f"{d['name']}:\n  id: {d['id']}\n  fields:\n{body}"
+    return None if d.get("reuse") else f"{d['name']}:\n  fields:\n{body}"
 
 
 def coq_bytes(s: str) -> str:
@@ -374,6 +389,12 @@ def run(chk: Check):
             if hashlib.sha256(m["raw"].encode()).hexdigest() != m["hash"]:
                 chk.spec_failure("hash-is-not-sha256-of-raw", f"{d['name']}: hash differs from sha256(raw)",
                                  dict(defn=d, raw=m["raw"], hash=m["hash"]))
+            ct = canonical_text(d)
+            if ct is not None and hashlib.sha256(ct.encode()).hexdigest() != m["hash"]:
+                chk.spec_failure("hash-is-not-sha256-of-the-canonical-text",
+                                 f"{d['name']}: version {m['hash'][:8]}, the canonical text hashes to "
+                                 f"{hashlib.sha256(ct.encode()).hexdigest()[:8]}; hashed text was {m['raw']!r}",
+                                 dict(defn=d, canonical=ct, raw=m["raw"], hash=m["hash"], source=res.get("_source")))
             l = {}
             if lits:
                 for lang in ("python", "c", "javascript", "matlab"):
@@ -416,10 +437,28 @@ def run(chk: Check):
         cases.append(dict(files={"root.yaml": yaml_file(consts=consts, aliases=aliases, structs=structs, msgs=msgs)},
                           root="root.yaml", import_coredefs=False, auto_pad=True, validate_alignment=True))
         metas.append(structs + msgs)
-    for res, defs in zip(run_impl(cases), metas):
+        # the same definitions with `fields:` written before `id:`, comments, blank lines, another indentation step
+        cases.append(dict(files={"root.yaml": yaml_file(consts=consts, aliases=aliases, structs=structs, msgs=msgs,
+                                                         comments=rng, fields_first=True, ind=rng.choice([2, 3, 4]))},
+                          root="root.yaml", import_coredefs=False, auto_pad=True, validate_alignment=True))
+        metas.append(structs + msgs)
+    gres = run_impl(cases)
+    for k, (res, defs, case) in enumerate(zip(gres, metas, cases)):
         if must_ok(res, "generated definitions"):
+            res["_source"] = case["files"]
             note_defs(res, defs)
-            dist["generated-definition"] = dist.get("generated-definition", 0) + len(defs)
+            dist["generated-definition" if k % 2 == 0 else "generated-definition:fields-before-id"] = \
+                dist.get("generated-definition" if k % 2 == 0 else "generated-definition:fields-before-id", 0) + len(defs)
+            if k % 2 == 1 and gres[k - 1]["ok"]:
+                h0 = {m["name"]: m["hash"] for m in gres[k - 1]["messages"]}
+                for m in res["messages"]:
+                    nontrivial.add(("key-order", m["name"]))
+                    if h0.get(m["name"]) != m["hash"]:
+                        chk.spec_failure("hash-depends-on-key-order",
+                                         f"{m['name']}: {h0.get(m['name'], '?')[:8]} written id-then-fields, {m['hash'][:8]} written "
+                                         "fields-then-id (same name, id, fields)",
+                                         dict(defn=next(d for d in defs if d["name"] == m["name"]),
+                                              source_id_first=cases[k - 1]["files"], source_fields_first=case["files"]))
 
     # (2) every single edit of a base definition changes the hash (checked on the real compiler)
     nbases = 40 if thorough else 8
@@ -545,6 +584,10 @@ def run(chk: Check):
             "comments-blank-lines": (dict(files={"root.yaml": yaml_file(msgs=[target, sig], comments=rng, **lib)}, root="root.yaml"), None),
             "unrelated-before-after": (dict(files={"root.yaml": yaml_file(msgs=[others[0], target, others[1], sig, others[2]], **lib)}, root="root.yaml"), None),
             "sections-reordered": (dict(files={"root.yaml": yaml_file(msgs=[sig, target], order=["message_defs", "struct_defs", "aliases", "constants"], **lib)}, root="root.yaml"), None),
+            "fields-before-id": (dict(files={"root.yaml": yaml_file(msgs=[target, sig], fields_first=True, **lib)}, root="root.yaml"), None),
+            "fields-before-id-comments-indent4-subdir": (dict(files={"root.yaml": yaml_file(imports=["deep/dir/t.yaml"]),
+                                                                      "deep/dir/t.yaml": yaml_file(msgs=[sig, target], fields_first=True, comments=rng, ind=4, **lib)},
+                                                               root="root.yaml"), None),
             "other-file-name": (dict(files={"zz_defs.yaml": yaml_file(msgs=[target, sig], **lib)}, root="zz_defs.yaml"), None),
             "imported-subdir": (dict(files={"root.yaml": yaml_file(imports=["sub/dir/lib.yaml", "sub/t.yaml"], msgs=[others[0]]),
                                             "sub/dir/lib.yaml": libfile,
@@ -776,6 +819,19 @@ def run(chk: Check):
 def replay(path: str) -> int:
     d = json.load(open(path))
     r = d["replay"]
+    if isinstance(r, dict) and ("source_fields_first" in r or r.get("source")):
+        srcs = ([("id-then-fields", r["source_id_first"]), ("fields-then-id", r["source_fields_first"])]
+                if "source_fields_first" in r else [("source", r["source"])])
+        nm = r["defn"]["name"]
+        ct = canonical_text(r["defn"])
+        print("definition:", r["defn"])
+        if ct is not None:
+            print("canonical text hashes to", hashlib.sha256(ct.encode()).hexdigest()[:8])
+        for label, files in srcs:
+            res = run_impl([dict(files=files, root="root.yaml", import_coredefs=False, auto_pad=True, validate_alignment=True)])[0]
+            m = [x for x in res["messages"] + res["structs"] if x["name"] == nm]
+            print(f"--- {label}: ok={res['ok']} version={m[0]['hash'][:8] if m else None} hashed text={m[0]['raw'] if m else None!r}")
+        return 0
     if isinstance(r, dict) and "late_case" in r:
         out = run_client_worker([r["late_case"]])[0]
         for j, y in enumerate(r["definitions"]):
